@@ -167,6 +167,24 @@ theorem inelastic_unfixed_is_stale :
 
 example : (wiringOf "InElastic").deps = [0, 1, 3] ∧ (wiringOf "PhaseField").observed = [0, 1, 4] := by decide
 
+/-- the descriptor `_Parameter.__set__` as extracted: check, store, then `Need_Update` for every `Updatable` instance, with no
+"unchanged" test in between (the body of the function is exactly these three statements) -/
+theorem descriptor_always_notifies :
+    Gen.C14.notifyForms.lookup "_Parameter.__set__" =
+      some ["self._checker(value)", "instance.__dict__[self.__name] = value", "if isinstance(instance, Updatable):\n    instance.Need_Update()"] := by
+  decide
+
+/-- consequence (value-based model `Sources.V`, notification test `fun _ _ => true`): for every simulation class and every
+sequence of assignments of VALUES and reads, a read serves matrices assembled from the current values; and any test that lets
+one real change through (a tolerance as in seed C11_H, an identity test on an array edited in place as in seed C14_H) serves stale ones -/
+theorem class_read_fresh_values (c : String) (hc : c ∈ classes) (ops : List Sources.V.Op) :
+    Sources.V.Fresh (wiringOf c) (Sources.V.step (wiringOf c) (fun _ _ => true) (Sources.V.run (wiringOf c) (fun _ _ => true) Sources.V.init ops) .read) :=
+  Sources.V.read_fresh _ _ (observers_cover_dependencies c hc) Sources.V.always_notify_exact ops
+
+theorem skipping_a_real_change_is_stale (notify : Nat → Nat → Bool) (a b : Nat) (hab : a ≠ b) (hskip : notify a b = false) :
+    ¬ Sources.V.Fresh (wiringOf "Elastic") (Sources.V.run (wiringOf "Elastic") notify Sources.V.init [.assign (Sources.idOf "model") a, .read, .assign (Sources.idOf "model") b, .read]) :=
+  Sources.V.inexact_test_goes_stale _ _ _ a b (by decide) hab hskip
+
 end Wiring
 
 end EasyFEAVerif.Props.C14
